@@ -13,6 +13,14 @@ whose evaluators yield generated rows.  Each case runs the real ``Experiment.run
       same columns in the same order, same rows, same cell types, NaN == NaN).
 
 Nothing in ``norm_match`` is derived from coba's encoder/decoder.
+
+Two further families of inputs (added after changes that the narrower workload missed):
+  * plain data that *looks like* the log's own encoding of registered objects: dicts with exactly one key that is a
+    registered class name ('L1', 'BR', 'DR', 'HR', 'zip') -- as nested values, as whole cells, as params values, and
+    as the only field of a row / the only param -- must be read back as the dicts they are;
+  * result files under other legal names: '.gz' inside the file name but not at its end, '.gz' in a directory name,
+    other extensions, other letter case, blanks / non-ascii letters -- run fresh and restored, and ``from_file``.
+    Whether the file on disk is compressed is found out from its first two bytes, never from its name.
 """
 import os, re, math, json, shutil, tempfile, traceback
 from itertools import product
@@ -21,7 +29,8 @@ ID    = "C07"
 LEVEL = "exploration"
 RULE  = ("seeded experiments (1-3 environments x 1-2 learners x 1-2 evaluators, cross product or explicit triple list) whose "
          "evaluators yield generated rows and whose components report generated params; every case is run with no file, a plain "
-         "file, a .gz file and as a two-stage restored run on both kinds of file; one oracle evaluation group = one triple's row "
+         "file, a .gz file, a file under a generated other name ('.gz' inside the name / in a directory name / other extension or case) and as a "
+         "two-stage restored run on each of these files; one oracle evaluation group = one triple's row "
          "list (or one params table); distinct & non-trivial = distinct row-shape signature (row-count class, ragged / late / "
          "absent-in-first-row keys, non-string keys, special column names, set of top-level cell kinds, nesting, columns mixing "
          "sequence and non-sequence cells) on a triple with at least one non-empty row")
@@ -32,11 +41,15 @@ REQUIRED = ["oracle.interactions.triples", "oracle.interactions.rows", "oracle.i
             "oracle.identical.plain-run", "oracle.identical.plain-from_file", "oracle.identical.gz-run", "oracle.identical.gz-from_file",
             "oracle.identical.restored-plain", "oracle.identical.restored-gz", "restored.stage1-left-work-pending",
             "cells.float-rounded", "cells.top-level-seq", "cells.absent", "cells.nonstring-field-name", "cells.nan-or-inf",
-            "cells.reward-object", "cells.nested", "cells.unicode-or-newline-str", "shape.seq-column-with-absent-cell"]
+            "cells.reward-object", "cells.nested", "cells.unicode-or-newline-str", "shape.seq-column-with-absent-cell",
+            "cells.plain-dict-keyed-by-registered-name", "shape.sole-field-named-like-registered-class",
+            "oracle.identical.altpath-run", "oracle.identical.altpath-from_file", "oracle.identical.restored-altpath",
+            "paths.gz-inside-name", "paths.gz-in-directory-name", "paths.gz-suffix", "paths.no-gz"]
 ASSUMPTIONS = [
     "field names never collide after str() nor as python dict keys; params are named by str, int or non-integral float (typed Mapping[str,Any]); row fields also by bool, None or tuples, all expected back as str(name)",
     "the id column names (environment_id, learner_id, evaluator_id, index), 'eval_type' and the learner family 'vw' are not generated as field names/values",
-    "single-key dicts keyed by a registered state name (L1, HR, BR, DR) are not generated as plain data (documented to decode to reward objects)",
+    "plain dicts keyed by a registered class name (L1, HR, BR, DR, zip) ARE generated as data and are expected back as the dicts they are (the statement lists no normalisation that turns data into objects)",
+    "result file paths are absolute, inside a fresh temporary directory; whether a written file is gzip-compressed is read from its magic bytes",
     "reward objects are compared by type and by behaviour on probe actions (HammingReward has no __eq__); their own parameters are finite",
     "a column named 'rewards' may read top-level sequences back as list or tuple (coba's explicit exception); nested sequences are compared ignoring list/tuple",
     "the env_type / family / eval_type columns that coba's Safe* wrappers add are accepted and only compared across the Results",
@@ -46,7 +59,9 @@ ASSUMPTIONS = [
 ]
 
 ID_COLS  = ("environment_id", "learner_id", "evaluator_id", "index")
-RESERVED = set(ID_COLS) | {"eval_type", "env_type", "family", "full_name", "BR", "DR", "HR", "L1"}
+RESERVED = set(ID_COLS) | {"eval_type", "env_type", "family", "full_name"}
+# names under which coba.json writes registered objects ({name: state}); plain data may use them as ordinary dict keys
+TAG_NAMES = ["L1", "BR", "DR", "HR", "zip"]
 FLOAT_TOL = 0.5e-5
 
 # ====================================================================================================================
@@ -136,18 +151,41 @@ def gen_reward(rng):
 def gen_nested_key(rng, used):
     for _ in range(20):
         k = rng.choice(["k", "x", "y", "é", "a b", "n\n", 1, 2, 10, "z"]) if rng.random() < .9 else rng.choice([1.5, 2.25])
-        if str(k) not in used and str(k) not in ("BR", "DR", "HR", "L1"):
+        if str(k) not in used:
             used.add(str(k)); return k
     k = f"k{len(used)}"; used.add(k); return k
+
+def gen_statelike(rng):
+    """plain data of the shapes that the states of registered objects have (a number, a list of actions, [argmax, value], ...)"""
+    r = rng.random()
+    if r < .35: return rng.choice([0, 1, 10, 0.5, 0.01, 1.5, 0.123456789, -2])
+    if r < .55: return {"L": [rng.choice([0, 1, 2, "a", "b"]) for _ in range(rng.choice([1, 2, 3]))]}
+    if r < .70: return {"L": [rng.choice([0, 1, "a"]), rng.choice([1, 2, 0.5])]}
+    if r < .80: return {"L": [{"L": [0, 1, 2]}, {"L": [0.25, 0, 1]}, 0]}
+    if r < .90: return rng.choice(["a", "x.zip", "", None])
+    return {"D": [["a", 1], ["b", 0.5]]}
+
+def gen_dict(rng, depth, allow_reward=True):
+    """a plain dict.  Some are keyed by the names under which the log writes registered objects: exactly one such key
+    (indistinguishable, in the file, from a written object), or such a key among others"""
+    r = rng.random()
+    if r < .22:
+        v = gen_statelike(rng) if rng.random() < .6 or depth >= 3 else gen_value(rng, depth + 1, allow_reward)
+        return {"D": [[rng.choice(TAG_NAMES), v]]}
+    if r < .30:
+        used = set(); tag = rng.choice(TAG_NAMES); used.add(tag)
+        items = [[tag, gen_statelike(rng)]] + [[gen_nested_key(rng, used), gen_value(rng, depth + 1, allow_reward)] for _ in range(rng.choice([1, 2]))]
+        rng.shuffle(items)
+        return {"D": items}
+    used = set(); n = rng.choice([0, 1, 2, 2, 3])
+    return {"D": [[gen_nested_key(rng, used), gen_value(rng, depth + 1, allow_reward)] for _ in range(n)]}
 
 def gen_value(rng, depth=0, allow_reward=True):
     r = rng.random()
     if depth >= 3 or r < .55: return gen_scalar(rng)
     if r < .70: return {"L": [gen_value(rng, depth + 1, allow_reward) for _ in range(rng.choice([0, 1, 2, 2, 3]))]}
     if r < .82: return {"T": [gen_value(rng, depth + 1, allow_reward) for _ in range(rng.choice([0, 1, 2, 3]))]}
-    if r < .93 or not allow_reward:
-        used = set(); n = rng.choice([0, 1, 2, 2, 3])
-        return {"D": [[gen_nested_key(rng, used), gen_value(rng, depth + 1, allow_reward)] for _ in range(n)]}
+    if r < .93 or not allow_reward: return gen_dict(rng, depth, allow_reward)
     return gen_reward(rng)
 
 def gen_field_names(rng, n, extra_reserved=(), rows=False):
@@ -157,7 +195,8 @@ def gen_field_names(rng, n, extra_reserved=(), rows=False):
     names, used, usedk = [], set(RESERVED) | set(extra_reserved), []
     while len(names) < n:
         r = rng.random()
-        if   r < .66: k = rng.choice(KEYS)
+        if   r < .06: k = rng.choice(TAG_NAMES)              # a field that merely shares its name with a registered class
+        elif r < .66: k = rng.choice(KEYS)
         elif r < .84: k = rng.choice([0, 1, 2, 3, 7, -1, 10, 42])
         elif r < .90: k = rng.choice([1.5, 0.25, -2.5, 1e-3])
         elif r < .95 and rows: k = rng.choice([True, False, None, {"T": [1, 2]}, {"T": ["a", 0.5]}, {"T": []}])
@@ -176,9 +215,7 @@ def gen_cell(rng, ck):
         return {rng.choice("LT"): [gen_scalar(rng) if rng.random() < .8 else gen_value(rng, 1) for _ in range(rng.choice([0, 1, 2, 2, 3]))]}
     if ck == "nested-seq":
         return {rng.choice("LT"): [{rng.choice("LT"): [gen_scalar(rng) for _ in range(rng.choice([0, 1, 2]))]} for _ in range(rng.choice([1, 2, 3]))]}
-    if ck == "dict":
-        used = set()
-        return {"D": [[gen_nested_key(rng, used), gen_value(rng, 1)] for _ in range(rng.choice([0, 1, 2, 3]))]}
+    if ck == "dict": return gen_dict(rng, 0)
     if ck == "reward": return gen_reward(rng)
     if ck == "seq-or-scalar": return gen_cell(rng, "seq") if rng.random() < .5 else gen_scalar(rng)
     return gen_value(rng, 0)
@@ -189,6 +226,7 @@ def gen_rows(rng):
     if n == 0: return []
     ncol  = rng.choice([1, 1, 2, 3, 3, 4, 5, 6])
     names = gen_field_names(rng, ncol, rows=True)
+    if rng.random() < .04: names = [rng.choice(TAG_NAMES)]     # the whole record of the triple is then a one-key dict
     cols  = []
     for k in names:
         ck = rng.choice(COLKINDS)
@@ -211,10 +249,36 @@ def gen_rows(rng):
 def gen_params(rng, extra_reserved=(), allow=("family",)):
     n = rng.choice([0, 1, 1, 2, 2, 3, 4])
     names = gen_field_names(rng, n, extra_reserved)
+    if rng.random() < .04: names = [rng.choice(TAG_NAMES)]
     items = [[k, gen_value(rng, 0, allow_reward=rng.random() < .3)] for k in names]
     for special in allow:
         if rng.random() < .15: items.append([special, rng.choice(["mine", "é\n", 3, 1.5, None])])
     return items
+
+# other legal names for the result file.  coba chooses between plain text and gzip from the name, in more than one place
+# (writer, reader, repair of a partly written file): what matters is that a name is treated the same way everywhere.
+ALT_NAMES = {
+    "no-gz":          ["result.txt", "result", "result.log.1", "r é s.log", "結果.json", "result.g.z", "gz.log", "result.zip"],
+    "gz-suffix":      ["result.gz", "a.b.gz", "r e s.log.gz", ".gz", "x.gz.gz"],
+    "gz-inside-name": ["result.gz.bak", "result.gzip", "run1.gz.log", "x.gz.1", ".gz.log", "a.gz b.txt", "result.gz~", "result.gz.tmp"],
+    "other-case":     ["result.GZ", "result.log.Gz", "RESULT.GZ.log"],
+}
+ALT_DIRS = [None, None, None, "out", "runs.gz.d", "a.gz", "x y", "d.gz.d/sub", ".gz"]
+def gen_altpath(rng):
+    cls = rng.choice(["no-gz", "gz-suffix", "gz-inside-name", "gz-inside-name", "gz-inside-name", "other-case"])
+    d = rng.choice(ALT_DIRS)
+    if d is not None and ".gz" in d and rng.random() < .6: cls = rng.choice(["no-gz", "no-gz", "other-case"])
+    return {"dir": d, "name": rng.choice(ALT_NAMES[cls])}
+
+def path_class(alt):
+    """structural class of a result file path: where (if anywhere) '.gz' occurs in it"""
+    d, n = alt.get("dir") or "", alt["name"]
+    flags = []
+    if n.endswith(".gz"): flags.append("gz-suffix")
+    elif ".gz" in n: flags.append("gz-inside-name")
+    if ".gz" in d: flags.append("gz-in-directory-name")
+    if not flags and ".gz" in (d + "/" + n).lower(): flags.append("gz-in-other-letter-case")
+    return "+".join(flags) or "no-gz"
 
 def gen_case(rng):
     ne, nl, nv = rng.choice([1, 1, 2, 2, 3]), rng.choice([1, 1, 2]), rng.choice([1, 1, 1, 2])
@@ -239,7 +303,8 @@ def gen_case(rng):
     # (an evaluator whose params raise is recorded with empty params by SafeEvaluator, so that is not a way to leave work pending)
     if not (fail["triples"] or fail["env"] or fail["lrn"]): fail["triples"] = [rng.choice(triples)]
     return {"form": form, "triples": triples, "envs": envs, "lrns": lrns, "vals": vals, "fail": fail,
-            "description": rng.choice([None, "d", "é\n\"x\"", "two words"]), "seed": rng.choice([1, 1, None, 7])}
+            "description": rng.choice([None, "d", "é\n\"x\"", "two words"]), "seed": rng.choice([1, 1, None, 7]),
+            "altpath": gen_altpath(rng)}
 
 # ====================================================================================================================
 # recording components (built fresh from the spec for every run)
@@ -381,6 +446,11 @@ def norm_match(o, g, depth=0, col=None, cnt=None):
             if r: return (r[0], r[1], "nested")
         return None
     if isinstance(o, dict):
+        if len(o) == 1 and next(iter(o)) in TAG_NAMES:
+            # plain data that, once written, cannot be told from a written registered object: it is still data
+            c("cells.plain-dict-keyed-by-registered-name")
+            if type(g) is not dict:
+                return (f"plain-dict-keyed-by-registered-name/read-back-as={type(g).__name__}", f"the dict {o!r} read back as {g!r} ({type(g).__name__})")
         if type(g) is not dict: return ("value-changed/kind=dict", f"{o!r} read back as {g!r}")
         want = {str(k): v for k, v in o.items()}
         if set(want) != set(g.keys()): return ("value-changed/kind=dict-keys", f"{o!r} read back as {g!r}")
@@ -467,7 +537,8 @@ def triple_shape(rows):
     nesting  = max([depth_of(v) for items in rows for _, v in items] or [0])
     mixedseq = sorted({(cs["first"],) + tuple(cs["others"]) for cs in (column_shape(rows, k) for k in keys) if cs["mixed"]})
     emptyrow = 0 in sizes
-    return (nclass, ragged, late, emptyrow, tuple(nonstr), tuple(special), tuple(topkinds), min(nesting, 3), tuple(mixedseq)), True
+    tagged   = ("sole-field" if len(keys) == 1 and keys[0] in TAG_NAMES else "value" if any(_has_tagged(v) for items in rows for _, v in items) else "")
+    return (nclass, ragged, late, emptyrow, tuple(nonstr), tuple(special), tuple(topkinds), min(nesting, 3), tuple(mixedseq), tagged), True
 
 def _innermost_coba_frame(exc):
     tb = traceback.extract_tb(exc.__traceback__)
@@ -493,7 +564,32 @@ def raise_signature(spec, exc):
                     if firstbad is None: continue
                     firstbad = "absent-or-None" if firstbad in ("absent", "none") else "scalar"
                     return sig + f"/column-starts-with-seq-cell/has-{firstbad}-cell"
+    if fn in ("__setstate__", "loads_registered", "list2tuple", "packed_list2tuple", "<dictcomp>", "filter") and spec_has_tagged_dict(spec):
+        return sig + "/data-holds-plain-dict-keyed-by-registered-name"
     return sig
+
+def _has_tagged(s):
+    if isinstance(s, dict):
+        if "D" in s:
+            if len(s["D"]) == 1 and s["D"][0][0] in TAG_NAMES: return True
+            return any(_has_tagged(v) for _, v in s["D"])
+        if "L" in s or "T" in s: return any(_has_tagged(x) for x in (s.get("L") or s.get("T") or []))
+    return False
+
+def spec_has_tagged_dict(spec):
+    """does the case hold plain data that is written as a one-key dict keyed by a registered class name (a value, or
+    the only field of all rows of a triple, or the only param of a component)?"""
+    for grp in ("envs", "lrns", "vals"):
+        for comp in spec[grp]:
+            items = comp["params"]
+            if len(items) == 1 and items[0][0] in TAG_NAMES: return True
+            if any(_has_tagged(v) for _, v in items): return True
+    for val in spec["vals"]:
+        for rows in val["rows"].values():
+            names = {str(build(k)) for items in rows for k, _ in items}
+            if len(names) == 1 and next(iter(names)) in TAG_NAMES: return True
+            if any(_has_tagged(v) for items in rows for _, v in items): return True
+    return False
 
 # ====================================================================================================================
 # running one case
@@ -605,6 +701,7 @@ def check_against_model(spec, res, viol, ctx, cnt):
         if idx != list(range(1, len(rows) + 1)) or any(type(i) is not int for i in idx):
             viol.append(("interactions/index-not-1..N", f"triple {tid}: index column reads {idx} for {len(rows)} rows")); continue
         keys = sorted({str(build(k)) for items in rows for k, _ in items})
+        if len(keys) == 1 and keys[0] in TAG_NAMES: note("shape.sole-field-named-like-registered-class")
         shapes = {k: column_shape(rows, k) for k in keys}
         for k, cs in shapes.items():
             if cs["has_seq"] and "absent" in cs["kinds"]: note("shape.seq-column-with-absent-cell")
@@ -667,13 +764,23 @@ def check_case(spec, ctx=None):
         if viol: return viol
         check_against_model(spec, r0, viol, ctx, cnt)
         for k, n in cnt.items(): note(k, n)
-        if viol: return viol
+        # (what the tables hold and whether all Results agree are separate questions: (2) is asked in any case)
 
         # ---------------------------------------------------------------- (2) every other Result is identical to it
-        for kind, fname in (("plain", "result.log"), ("gz", "result.log.gz")):
+        files = [("plain", "plain", None, "result.log"), ("gz", "gz", None, "result.log.gz")]
+        alt = spec.get("altpath")
+        if alt:
+            pc = path_class(alt)
+            files.append(("altpath", f"path={pc}", alt.get("dir"), alt["name"]))
+        for kind, siglabel, subdir, fname in files:
             for restored in (False, True):
-                path = os.path.join(tmp, ("restored-" if restored else "") + fname)
+                folder = os.path.join(tmp, "restored" if restored else "fresh", *(subdir.split("/") if subdir else []))
+                os.makedirs(folder, exist_ok=True)
+                path = os.path.join(folder, fname)
                 label = f"restored-{kind}" if restored else kind
+                sigl  = f"restored-{siglabel}" if restored else siglabel
+                if kind == "altpath" and not restored:
+                    for flag in pc.split("+"): note(f"paths.{flag}")
                 try:
                     if restored:
                         _, s1 = run(path, stage1=True)
@@ -686,22 +793,28 @@ def check_case(spec, ctx=None):
                         r, sink = run(path)
                     f = Result.from_file(path)
                 except Exception as e:
-                    viol.append((f"run/{label}/" + raise_signature(spec, e), f"{label}: raised {type(e).__name__}: {e}")); continue
+                    viol.append((f"run/{sigl}/" + raise_signature(spec, e), f"{label} {fname!r}: raised {type(e).__name__}: {e}")); continue
                 for name, text in _logged_exceptions(sink):
-                    viol.append((f"run/{label}/logged-exception:{name}", f"{label}: Experiment.run logged an exception although no component failed: {text}"))
+                    viol.append((f"run/{sigl}/logged-exception:{name}", f"{label} {fname!r}: Experiment.run logged an exception although no component failed: {text}"))
                 d = results_identical(r0, r)
                 note(f"oracle.identical.{label}" if restored else f"oracle.identical.{kind}-run")
-                if d: viol.append((f"identical/{label}-run-vs-no-file/{d[0]}/{d[1]}", f"Result returned by run({fname}) differs from Result without a file: {d[2]}"))
+                if d: viol.append((f"identical/{sigl}-run-vs-no-file/{d[0]}/{d[1]}", f"Result returned by run({_show(subdir, fname)}) differs from Result without a file: {d[2]}"))
                 d = results_identical(r, f)
                 note(f"oracle.identical.{label}-from_file" if restored else f"oracle.identical.{kind}-from_file")
-                if d: viol.append((f"identical/{label}-from_file-vs-run/{d[0]}/{d[1]}", f"Result.from_file({fname}) differs from the Result run returned: {d[2]}"))
+                if d: viol.append((f"identical/{sigl}-from_file-vs-run/{d[0]}/{d[1]}", f"Result.from_file({_show(subdir, fname)}) differs from the Result run returned: {d[2]}"))
         return viol
     finally:
         shutil.rmtree(tmp, ignore_errors=True)
 
+def _show(subdir, fname):
+    return repr(f"{subdir}/{fname}" if subdir else fname)
+
 def _count_records(path):
+    """complete-or-not records in the file; whether it is compressed is read from its first two bytes, not from its name"""
     import gzip
-    op = gzip.open if path.endswith(".gz") else open
+    if not os.path.exists(path): return 0
+    with open(path, "rb") as f: magic = f.read(2)
+    op = gzip.open if magic == b"\x1f\x8b" else open
     with op(path, "rb") as f: return sum(1 for ln in f if ln.strip())
 
 # ====================================================================================================================
